@@ -38,7 +38,7 @@ type Case struct {
 func (c Case) Key() string { return c.Op + "/" + c.Target + "/" + c.Kind }
 
 // Select says which operations and which monitor groups a property is concerned with.
-// Monitor groups: mount (what an application reads through the kernel page cache = the file), image, chain, checksum, export, locks, restart, journal, backup, effect; for the replica-side
+// Monitor groups: posfile (what an application polling <db>-pos reads = the position), mount (what an application reads through the kernel page cache = the file), image, chain, checksum, export, locks, restart, journal, backup, effect; for the replica-side
 // operations (cluster.go): replica-image, replica-checksum, replica-chain, replica-restart.
 type Select struct {
 	Ops       []string
@@ -285,6 +285,23 @@ func mask(b []byte) []byte {
 
 func (w *world) warmCache() { w.node.WarmCache(dbName, w.l.PageSize) }
 
+// stalePosFile: what an application that keeps the position file open and re-reads it whenever the kernel
+// drops its cached content sees, against the position the node has.
+func stalePosFile(n *sim.Node, name string) (string, bool) {
+	db := n.Store.DB(name)
+	if db == nil {
+		return "", false
+	}
+	cached, ok := n.Cache.CachedPos(name)
+	if !ok {
+		return "", false
+	}
+	if now := db.Pos(); cached != now {
+		return fmt.Sprintf("position file reads %s, the node is at %s", cached, now), true
+	}
+	return "", false
+}
+
 func (w *world) mountView() []uint32 {
 	if w.db() == nil {
 		return nil
@@ -401,7 +418,7 @@ func (w *world) close() {
 func variants(op string) []string {
 	switch op {
 	case "rb_commit":
-		return []string{"modify", "shrink", "grow"}
+		return []string{"modify", "shrink", "grow", "chmod"} // chmod: a third party changes the journal's attributes in mid-transaction
 	case "wal_commit":
 		return []string{"modify", "grow"}
 	case "import":
@@ -461,6 +478,9 @@ func (w *world) op() (out outcome) {
 		}
 		out.journal = true
 		step(pg.JSync)
+		if w.variant == "chmod" {
+			_ = core.Try(func() { _ = pg.C.ChmodJournal() })
+		}
 		for _, q := range pl.M {
 			q := q
 			step(func() error { return pg.JPage(q) })
@@ -642,11 +662,28 @@ func sweep(rep *core.Report, sel Select, c Case, l sim.Layout, variant string) {
 	o := ref.op()
 	events := ref.disarm()
 	if o.err != nil {
+		// the operation fails although nothing was injected (on the unchanged tree it never does)
+		exits := ref.node.Exits()
 		ref.close()
-		core.Infra("faults: fault-free run of %s/%s failed: %v", c.Key(), variant, o.err)
+		rep.Eval(1)
+		for _, g := range []string{"effect", "image", "journal", "locks", "backup", "checksum", "export", "restart", "mount"} {
+			if sel.has(g) {
+				violate(rep, sel, g, "operation-fails-without-a-fault", "operation-fails-without-a-fault/"+c.Op+"/"+c.Target+"/"+variant,
+					map[string]any{"error": sim.ErrString(o.err), "exits": exits, "what": "the operation, run without any injected fault, failed"}, c, l, variant, -1, "")
+				return
+			}
+		}
+		return
 	}
 	refAfter := ref.factsNow()
 	ref.undo()
+	if sel.has("posfile") && c.Op != "open" && c.Kind == "error" {
+		rep.Eval(1)
+		if what, stale := stalePosFile(ref.node, dbName); stale {
+			violate(rep, sel, "posfile", "position-file-read-through-the-mount-is-stale", "position-file-read-through-the-mount-is-stale/"+c.Op+"/"+c.Target+"/"+variant,
+				map[string]any{"observed": what, "what": "an application that keeps <db>-pos open and re-reads it whenever the kernel drops the cached content reads a position the node is not at: the invalidation was sent before the new position was in place"}, c, l, variant, -1, "")
+		}
+	}
 	if sel.has("mount") && c.Op != "drop" && c.Op != "open" && c.Op != "backup_sync" && c.Kind == "error" {
 		rep.Eval(1)
 		if stale := ref.mountView(); len(stale) > 0 {
